@@ -17,6 +17,7 @@ package main
 
 import (
 	"fmt"
+	"os"
 	"sort"
 	"strconv"
 	"strings"
@@ -43,6 +44,27 @@ func orPermissive(m string) string {
 	return m
 }
 
+// oracleStats: how often the oracle judged what (input classes), written next to the verdicts as <out>.stats.
+var oracleStats = map[string]int{}
+
+func stat(key string) { oracleStats[key]++ }
+
+func writeStats(outp string) {
+	if outp == "-" || outp == os.DevNull {
+		return
+	}
+	keys := make([]string, 0, len(oracleStats))
+	for k := range oracleStats {
+		keys = append(keys, k)
+	}
+	sort.Strings(keys)
+	var b strings.Builder
+	for _, k := range keys {
+		fmt.Fprintf(&b, "%s %d\n", k, oracleStats[k])
+	}
+	_ = os.WriteFile(outp+".stats", []byte(b.String()), 0o644)
+}
+
 func oracle(stream, in, outp string) {
 	if stream == "chains" {
 		chainsOracle(outp)
@@ -50,6 +72,7 @@ func oracle(stream, in, outp string) {
 	}
 	out := wire.Create(outp)
 	defer out.Close()
+	defer writeStats(outp)
 	s := newSUT("istio-system")
 	verdict := ""
 	caseOpen := false
@@ -67,6 +90,9 @@ func oracle(stream, in, outp string) {
 		// first failure of the case wins, except that a failure of a recorded known-finding class never
 		// hides a different failure later in the same case
 		known := knownClasses[clause+":"+class]
+		if known {
+			stat("known-class-hit." + clause + ":" + class)
+		}
 		if verdict == "" || (verdictKnownClass && !known) {
 			verdict = fmt.Sprintf("FAIL %s %s op=%d %s", clause, class, idx, wire.Enc(detail))
 			verdictKnownClass = known
@@ -115,6 +141,13 @@ func oracle(stream, in, outp string) {
 				ps, got, _ := strings.Cut(e, ":")
 				p, _ := strconv.ParseUint(ps, 10, 32)
 				want := effectiveMode(s.pas, s.root, ns, labels, uint32(p))
+				stat("judged.precedence.mode." + want)
+				if ns == s.root {
+					stat("judged.precedence.root-namespace-workload")
+				}
+				if l := specLevels(s.pas, s.root, ns, labels); tiedSelected(s.pas, l) {
+					stat("judged.precedence.tie-decides")
+				}
 				if got != want {
 					fail("precedence", "resolver-vs-spec", fmt.Sprintf("port %d real %s spec %s", p, got, want))
 				}
@@ -160,6 +193,23 @@ func oracle(stream, in, outp string) {
 					// that is not the oldest of its namespace was dropped by the singleton check and has no effect
 					func(p paIn) bool { return keptNs[p.ns] && !s.shadowed(p) })
 			}
+			{
+				// push propagation: every policy of a kept namespace that a resolver can read (not dropped by the
+				// singleton check) is a config dependency of the client proxy (SidecarScope.DependsOnConfig)
+				keptNs := map[string]bool{wire.Dec(f[6]): true, s.root: true}
+				for _, n := range wire.DecList(f[7]) {
+					keptNs[n] = true
+				}
+				deps := map[string]bool{}
+				for _, d := range strings.Split(field(res, "DP"), ",") {
+					deps[d] = true
+				}
+				for _, pa := range s.pas {
+					if keptNs[pa.ns] && !s.shadowed(pa) && !deps[pa.ns+"/"+pa.name] {
+						fail("client-push-dependency", "policy-of-kept-namespace-not-a-config-dependency", fmt.Sprintf("%s/%s DP=%s", pa.ns, pa.name, field(res, "DP")))
+					}
+				}
+			}
 			// the statement covers endpoints whose namespace the client's sidecar scope keeps
 			kept := ns == wire.Dec(f[6]) || ns == s.root
 			for _, n := range wire.DecList(f[7]) {
@@ -171,6 +221,7 @@ func oracle(stream, in, outp string) {
 			chkOn := strings.Fields(res)[0] == "1"
 			eff := effectiveMode(s.pas, s.root, ns, parseLabels(f[2]), uint32(p))
 			nsLevel := effectiveMode(s.pas, s.root, ns, nil, 0)
+			stat("judged.client.effective." + eff + ".namespace-level." + nsLevel)
 			if f[5] == "nil" && f[4] == "1" {
 				if chkOn != (eff != "DISABLE") {
 					fail("client-agrees", "checkMtlsEnabled", fmt.Sprintf("real %s spec-not-disable %v", res, eff != "DISABLE"))
@@ -196,7 +247,7 @@ func oracle(stream, in, outp string) {
 				continue
 			}
 			s.clientE2EOracle(f, res, fail)
-		case "il", "ils", "ilh", "ilp":
+		case "il", "ils", "ilh", "ilp", "ilt", "ilr":
 			res := s.apply(f)
 			if res == "crash" || res == "bad-op" || res == "no-virtual-inbound" {
 				fail("never-crashes", "crash", strings.Join(f, " ")+" -> "+res)
